@@ -54,6 +54,8 @@ class Report(object):
         nt = out.get('nontrivial')
         if nt:
             self.nontrivial.add(k if nt is True else str(nt))
+        for key in out.get('nt_keys', ()):
+            self.nontrivial.add(key)
         self.digest.update(json.dumps([case.get('id'), out['verdict'], k, out.get('sig')],
                                       sort_keys=True).encode())
         if out['verdict'] == 'viol':
@@ -99,7 +101,7 @@ class Report(object):
                         self._evidence(rule, exhaustive, coverage, 0, note='nondeterminism')
                         return 2
                 new.append(sig)
-        rdir = os.path.join(VERIF, 'replays', pid)
+        rdir = os.path.join(os.environ.get('VT_REPLAY_DIR') or os.path.join(VERIF, 'replays'), pid)
         for n, sig in enumerate(new):
             case, out = self.viol[sig]
             os.makedirs(rdir, exist_ok=True)
@@ -141,8 +143,9 @@ class Report(object):
         ev = {'property_id': self.pid, 'tier': self.tier, 'seed': int(self.seed),
               'level': self.level, 'coverage': cov, 'assumptions': self.assumptions,
               'wall_s': round(time.time() - self.t0, 2), 'violations': int(violations)}
-        os.makedirs(os.path.join(VERIF, 'evidence'), exist_ok=True)
-        path = os.path.join(VERIF, 'evidence', '%s.json' % self.pid)
+        edir = os.environ.get('VT_EVIDENCE_DIR') or os.path.join(VERIF, 'evidence')
+        os.makedirs(edir, exist_ok=True)
+        path = os.path.join(edir, '%s.json' % self.pid)
         tmp = path + '.tmp'
         with open(tmp, 'w') as f:
             json.dump(ev, f, indent=1, default=_default)
